@@ -179,7 +179,17 @@ CHECKS["C17"] = {
     "design_ref": "§7 C17",
 }
 
-NOT_YET = "check not built yet (construction in progress; see DESIGN.md §11 build order)"
+CHECKS["C09"] = {
+    "category": "model_checking",
+    "technique": "TLA+ WireCanon.tla (Valid / Value / Canonical over abstract protobuf serialisations) checked by TLC; its table replayed into the real canonical_raw (T3); seeded encode/decode/normalise round trips of the public message types",
+    "text": "PARTIAL. Decided: the canonical form of every bounded serialisation of a schema covering all field shapes (uniqueness, idempotence, value preservation "
+            "on the spec; byte equality with the real canonical_raw). Sampled: losslessness and byte agreement for seeded values of 12 public wire/storage types, "
+            "including alternative valid serialisations.",
+    "note": "Not decided: 'all values of all types' (byte-level fidelity is outside what a TLA+ model enumerates); crate-private RPC/handshake types; build-time schema checks. One defect found by this check was repaired.",
+    "design_ref": "§7 C09, §9",
+}
+
+NOT_YET = "no check claimed"
 NA_REASONS = {}
 
 
